@@ -613,6 +613,15 @@ class JokerSamples:
         Compute the log (unmarginalized) likelihood of the data for each sample
         """
 
+        from .data_helpers import validate_prepare_data
+
+        # Combine multiple data sources the same way the sampler does, so that
+        # each epoch knows which constant velocity offset (if any) applies to it
+        data, _, trend_M = validate_prepare_data(
+            data, self.poly_trend, self.n_offsets
+        )
+        _, offset_names = validate_n_offsets(self.n_offsets)
+
         data_rv = data.rv.value
         data_unit = data.rv.unit
         data_var = (data.rv_err.to_value(data_unit)) ** 2
@@ -624,9 +633,12 @@ class JokerSamples:
 
         lls = np.full(len(self), np.nan)
         for i, (orbit, s) in enumerate(zip(self.orbits, s_vars)):
-            model_rv = orbit.radial_velocity(data.t)
-            lls[i] = ln_normal(
-                model_rv.to_value(data_unit), data_rv, data_var + s
-            ).sum()
+            model_rv = orbit.radial_velocity(data.t).to_value(data_unit)
+            for j, name in enumerate(offset_names):
+                # column 0 of the trend design matrix is v0; the offsets follow
+                model_rv = model_rv + trend_M[:, j + 1] * np.atleast_1d(
+                    self[name].to_value(data_unit)
+                )[i]
+            lls[i] = ln_normal(model_rv, data_rv, data_var + s).sum()
 
         return lls
